@@ -244,3 +244,129 @@ func keysB2(m map[bool]bool) []bool {
 	}
 	return out
 }
+
+// OFFSET: wherever a raw latency snapshot becomes a sorting latency the
+// per-node offset of the same node is added (update step and run-time policy
+// switch are siblings).
+func c15Offset(c *Ctx) {
+	const rule = "OFFSET"
+	n := 0
+	for _, f := range c.P.FuncsIn("component/outbound/dialer") {
+		if f.Decl == nil || f.Decl.Recv == nil || !strings.HasPrefix(f.Name, "component/outbound/dialer.AliveDialerSet.") {
+			continue
+		}
+		info := f.Info()
+		raw := map[types.Object]string{} // raw latency local -> rendered node expression
+		ast.Inspect(f.Body, func(m ast.Node) bool {
+			as, ok := m.(*ast.AssignStmt)
+			if !ok || len(as.Rhs) != 1 || len(as.Lhs) != 2 {
+				return true
+			}
+			call, ok := as.Rhs[0].(*ast.CallExpr)
+			if !ok {
+				return true
+			}
+			recv, name, ok := methodCall(call)
+			if !ok || name != "snapshotLatencyForPolicy" {
+				return true
+			}
+			if id, ok := as.Lhs[0].(*ast.Ident); ok {
+				raw[info.ObjectOf(id)] = core.ExprStr(recv)
+			}
+			return true
+		})
+		if len(raw) == 0 {
+			continue
+		}
+		mentions := func(e ast.Expr) (types.Object, bool) {
+			var hit types.Object
+			ast.Inspect(e, func(m ast.Node) bool {
+				if id, ok := m.(*ast.Ident); ok {
+					if o := info.ObjectOf(id); o != nil {
+						if _, isRaw := raw[o]; isRaw {
+							hit = o
+						}
+					}
+				}
+				return true
+			})
+			return hit, hit != nil
+		}
+		ast.Inspect(f.Body, func(m ast.Node) bool {
+			as, ok := m.(*ast.AssignStmt)
+			if !ok || len(as.Lhs) != len(as.Rhs) {
+				return true
+			}
+			for i, r := range as.Rhs {
+				ro, uses := mentions(r)
+				if !uses {
+					continue
+				}
+				lhs := core.ExprStr(as.Lhs[i])
+				if ix, ok := as.Lhs[i].(*ast.IndexExpr); ok && strings.HasSuffix(core.ExprStr(ix.X), ".dialerToLatency") {
+					continue // the raw value is recorded as such
+				}
+				if !strings.Contains(strings.ToLower(lhs), "sortinglatency") {
+					continue
+				}
+				n++
+				c.R.Saw(f)
+				ok2 := false
+				var key string
+				ast.Inspect(r, func(k ast.Node) bool {
+					be, isB := k.(*ast.BinaryExpr)
+					if !isB || be.Op.String() != "+" {
+						return true
+					}
+					for _, pair := range [][2]ast.Expr{{be.X, be.Y}, {be.Y, be.X}} {
+						if id, isId := ast.Unparen(pair[0]).(*ast.Ident); isId && info.ObjectOf(id) == ro {
+							if ix, isIx := ast.Unparen(pair[1]).(*ast.IndexExpr); isIx && strings.HasSuffix(core.ExprStr(ix.X), ".dialerToLatencyOffset") {
+								key = core.ExprStr(ix.Index)
+								ok2 = key == raw[ro]
+							}
+						}
+					}
+					return true
+				})
+				c.R.Checkf(rule, "sorting-latency-includes-offset@"+strings.TrimPrefix(f.Name, "component/outbound/dialer.")+"/"+nospace(lhs), c.pos(as.Pos()), ok2,
+					"%s is computed from the raw latency snapshot of %s plus dialerToLatencyOffset[%s] (per-node offsets are part of the ordering the min policies select by; got offset key %q)", lhs, raw[ro], raw[ro], key)
+			}
+			return true
+		})
+	}
+	c.R.Floor(rule, n, 2)
+}
+
+// excluded node threading in the control plane's dial path
+func c15ExcludedDial(c *Ctx) {
+	const rule = "EXCLUDED"
+	f := c.fn(rule, "control", "ControlPlane.chooseProxyDialer")
+	if f == nil {
+		return
+	}
+	info := f.Info()
+	n, bad := 0, ""
+	core.EachCall(f.Body, core.Deep, func(call *ast.CallExpr) {
+		cal := core.Callee(info, call)
+		if cal == nil {
+			return
+		}
+		sig := cal.Type().(*types.Signature)
+		for i := 0; i < sig.Params().Len() && i < len(call.Args); i++ {
+			if sig.Params().At(i).Name() != "excluded" {
+				continue
+			}
+			n++
+			if core.FieldOf(info, call.Args[i]) != "proxyDialParam.Excluded" && bad == "" {
+				bad = fmt.Sprintf("%s at %s passes %s", cal.Name(), c.pos(call.Pos()), core.ExprStr(call.Args[i]))
+			}
+		}
+	})
+	c.R.Checkf(rule, "threaded@chooseProxyDialer", c.pos(f.Pos()), bad == "" && n >= 2,
+		"every node selection in chooseProxyDialer (requested family and the other-family retry, %d calls) passes the caller's excluded node%s", n, func() string {
+			if bad != "" {
+				return " — VIOLATED: " + bad + ": the fallback may hand back exactly the node the caller excluded after it failed"
+			}
+			return ""
+		}())
+}
